@@ -11,6 +11,7 @@ import (
 	"sort"
 	"strconv"
 	"strings"
+	gosync "sync"
 
 	"github.com/opencontainers/go-digest"
 	ocispec "github.com/opencontainers/image-spec/specs-go/v1"
@@ -81,8 +82,9 @@ type Registry struct {
 	Hook     func(rec *ReqRecord) (status int, handled bool)
 	nUpload  int
 	nResp    int
-	Applied  string // description of the corruption actually applied
-	ReadBody int64  // bytes of the largest response body actually consumed by the client (set by counting readers)
+	mu       gosync.Mutex // real lock: registry state is shared by concurrent requests (free-running race pass)
+	Applied  string       // description of the corruption actually applied
+	ReadBody int64        // bytes of the largest response body actually consumed by the client (set by counting readers)
 	bodies   []*countingBody
 }
 
@@ -179,6 +181,8 @@ func (g *Registry) errResp(req *http.Request, status int, code string) *http.Res
 // RoundTrip implements http.RoundTripper.
 func (g *Registry) RoundTrip(req *http.Request) (*http.Response, error) {
 	vs.Pt("http " + req.Method + " " + req.URL.Path)
+	g.mu.Lock()
+	defer g.mu.Unlock()
 	rec := ReqRecord{Method: req.Method, Host: req.URL.Host, Path: req.URL.EscapedPath(), Query: req.URL.RawQuery, Header: req.Header.Clone()}
 	if req.Body != nil && req.Body != http.NoBody {
 		b, _ := io.ReadAll(req.Body)
